@@ -78,7 +78,7 @@ def run(rep, tier):
                any(callee_of(c)[1] in ('genProc', 'genFunc') for c in cast.calls_in(g.body))]
         rep.add('R7', 'LowerDirectives:prologue-to-PROC/FUNC', bool(low), low[0].qname if low else 'xcmp::LowerDirectives',
                 'lowering emits genProc / genFunc' if low else 'no genProc / genFunc in LowerDirectives', nontrivial=False)
-    for fn, a in ((rule_calls_not_elided, (rep,)), (rule_every_proc_listed, (rep,)), (rule_prefix, (rep, idx)), (rule_format, (rep, idx)), (rule_symbols, (rep,)), (rule_lookup, (rep, idx)), (rule_symbol_offset, (rep, idx))):
+    for fn, a in ((rule_calls_not_elided, (rep,)), (rule_every_proc_listed, (rep,)), (rule_prefix, (rep, idx)), (rule_format, (rep, idx)), (rule_symbols, (rep,)), (rule_lookup, (rep, idx)), (rule_symbol_offset, (rep, idx)), (rule_loader_keeps, (rep, idx))):
         try:
             fn(*a)
         except AnalysisBroken as e:
@@ -245,6 +245,131 @@ def rule_format(rep, idx):
 
 
 # --------------------------------------------------------------------------------------------------
+
+class _File:
+    """A well-formed binary as the writer lays it out: header word, image, string table, symbol table."""
+
+    def __init__(self, image_bytes, names, offsets):
+        self.words = []
+        self.items = [('u32', image_bytes // 4), ('skip', image_bytes), ('u32', len(names))]
+        for nm in names:
+            self.items += [('chr', ord(c)) for c in nm] + [('chr', 0)]
+        self.items.append(('u32', len(names)))
+        for i, off in enumerate(offsets):
+            self.items += [('u32', i), ('u32', off)]
+        self.size = 4 + image_bytes + 4 + sum(len(nm) + 1 for nm in names) + 4 + 8 * len(names)
+        self.pos = 0
+        self.failed = False
+
+    def next(self, kind):
+        if self.pos >= len(self.items) or self.items[self.pos][0] != kind:
+            self.failed = True
+            return None
+        v = self.items[self.pos][1]
+        self.pos += 1
+        return v
+
+
+def load_symbols(idx, image_bytes, names, offsets):
+    """Interpret hexsim::Processor::load (engine I) on a well-formed binary; returns the list of (name, offset) the simulator keeps."""
+    from ..ivinterp import const as iconst, Thrown, NeedSplit
+    fm = _File(image_bytes, names, offsets)
+
+    def target(I, a, env):
+        a = cast.strip(a)
+        while a.get('kind') in ('CXXReinterpretCastExpr', 'ImplicitCastExpr', 'ParenExpr', 'CStyleCastExpr', 'CXXStaticCastExpr'):
+            a = cast.strip(children(a)[0])
+        if a.get('kind') == 'UnaryOperator' and a.get('opcode') == '&':
+            return I.lval(children(a)[0], env)
+        return None
+
+    def hooks(I, n, kind, name, did, obj, args, env):
+        t = (dqt(obj) + ' ' + qt(obj)) if obj is not None else ''
+        if kind == 'method' and ('stream' in t or 'basic_ios' in t or 'ios_base' in t):
+            if name in ('seekg', 'close', 'clear'):
+                return None
+            if name == 'tellg':
+                return iconst(64, True, fm.size)
+            if name in ('good', 'is_open', 'operator bool'):
+                return iconst(1, False, 0 if fm.failed else 1)
+            if name in ('fail', 'bad', 'eof', 'operator!'):
+                return iconst(1, False, 1 if fm.failed else 0)
+            if name == 'gcount':
+                return iconst(64, True, 4)
+            if name == 'get' and not args:
+                v = fm.next('chr')
+                return iconst(32, True, -1 if v is None else v)
+            if name == 'read' and len(args) == 2:
+                nbytes = I.expr(args[1], env)
+                lv = target(I, args[0], env)
+                if lv is None:
+                    # the image: read into the memory array
+                    want = fm.next('skip')
+                    if not (isinstance(nbytes, IV) and nbytes.concrete() and nbytes.lo == want):
+                        raise AnalysisBroken('image read of %r bytes, the header announces %r' % (nbytes, want))
+                    return None
+                if not (isinstance(nbytes, IV) and nbytes.concrete() and nbytes.lo == 4):
+                    raise AnalysisBroken('read of %r bytes into a scalar at %s' % (nbytes, pos(n)))
+                v = fm.next('u32')
+                if v is not None:
+                    I.store(lv, iconst(32, False, v), env)
+                return None
+        if kind == 'method' and name == 'data' and 'array' in t:
+            return ('memory',)
+        if kind == 'function' and name == 'make_pair':
+            return ('pair',) + tuple(I.expr(a, env) for a in args)
+        if name == 'eof' and kind == 'function':
+            return iconst(32, True, -1)
+        if n['kind'] == 'CXXOperatorCallExpr' and name == 'operator=' and 'fpos' in (dqt(args[0]) + qt(args[0])):
+            v = I.expr(args[1], env)
+            I.store(I.lval(args[0], env), v, env)
+            return v
+        if kind == 'method' and name.startswith('operator ') and 'fpos' in t:
+            return I.expr(obj, env)
+        return NotImplemented
+    I = ivinterp.Interp(idx, hooks, max_iter=4000)
+    f = idx.func('hexsim::Processor::load')
+    proc = Obj('hexsim::Processor', {'debugInfo': Vec([]), 'debugInfoMap': {}, 'memory': Obj('std::array', {}, 'memory')}, 'processor')
+    I.invoke(f, proc, [('str', 'a.bin'), iconst(1, False, 0)])
+    kept = []
+    for it in proc.fields['debugInfo'].items:
+        if isinstance(it, tuple) and it[0] == 'pair' and isinstance(it[1], tuple) and it[1][0] == 'str' and isinstance(it[2], IV) and it[2].concrete():
+            kept.append((it[1][1], it[2].lo))
+        else:
+            kept.append(('?', repr(it)))
+    return kept, proc.fields['debugInfoMap'], list(I.ub)
+
+
+def rule_loader_keeps(rep, idx, rid='R8'):
+    rep.rule(rid, 'the loader keeps every symbol of a well-formed binary: hexsim::Processor::load, interpreted on files laid out as '
+             'emitBin/emitDebugInfo write them (header, image, names, (index, offset) pairs), ends with exactly the written (name, offset) '
+             'list in debugInfo and the same offsets in debugInfoMap -- for programs of 1, 3, 12 and 40 procedures of the smallest size xcmp '
+             'generates (5 bytes each behind 14 bytes of start-up code)', floor=4)
+    from ..ivinterp import Thrown, NeedSplit
+    f = idx.func('hexsim::Processor::load')
+    # sizes as xcmp produces them: 14 bytes of start-up code, then procedures of at least 5 bytes (empty frame, trivial body), image
+    # padded to a word boundary
+    def shape(n):
+        return ((14 + 5 * n + 3) & ~3, ['main'] + ['p%d' % i for i in range(1, n)], [14 + 5 * i for i in range(n)])
+    cases = [shape(1), shape(3), shape(12), shape(40)]
+    for image, names, offs in cases:
+        key = 'image=%d:symbols=%d' % (image, len(names))
+        try:
+            kept, mp, ub = load_symbols(idx, image, names, offs)
+        except Thrown as e:
+            rep.add(rid, key, False, pos(f.node) + ' hexsim::Processor::load', 'loading a well-formed binary fails: %s' % (e.what,))
+            continue
+        except (NeedSplit, AnalysisBroken) as e:
+            rep.undecided(rid, key, 'loader not interpreted: %s' % e, pos(f.node) + ' hexsim::Processor::load')
+            continue
+        want = list(zip(names, offs))
+        mp_ok = all(isinstance(mp.get(nm), IV) and mp[nm].concrete() and mp[nm].lo == off for nm, off in want) and len(mp) == len(want)
+        ok = kept == want and mp_ok and not ub
+        rep.add(rid, key, ok, pos(f.node) + ' hexsim::Processor::load',
+                'keeps %d of %d symbols' % (len(kept), len(want)) if ok else
+                'a %d-byte image with symbols %s is loaded with the table %s (map %s)%s: the trace then labels no instruction with its procedure'
+                % (image, want[:4], kept[:4], sorted(mp)[:4], '; UB %s' % ub if ub else ''))
+
 
 def rule_symbols(rep):
     rep.rule('R3', 'every FUNC/PROC directive is recorded once with the emitter\'s running offset, which equals its layout offset '
